@@ -11,6 +11,7 @@
    out:  last=<header LastIndex> idx=… kvs=… tombs=… sess=… sc=<node;check;session,…> peer=… tb=… stream=<kind:count,…> usage=<count;index of usage row "kvs", or ->
          computed as  restore (snapshot s)  by the model functions the theorems are about. -/
 import CV.Snap
+import CV.Store.Snap
 namespace CV.Engine.C02
 open CV CV.Snap
 
@@ -51,6 +52,89 @@ def encSC (l : List SCheck) : String := encList (l.map fun c => encB c.node ++ "
 def encLate (l : List Late) : String := encList (l.map fun p => encB p.id ++ ";" ++ encS p.payload ++ ";" ++ toString p.modify)
 def encRuns (l : List (String × Nat)) : String := encList (l.map fun (k, n) => k ++ ":" ++ toString n)
 
+/-! ### `rts`: the store model (CV.Store.Snap)
+
+   op:   rts <nodes> <svcs> <chks> <sessions> <kvs> <tombstones> <queries> <index>
+           node   name;id;addr;create;modify          svc    node;id;name;port;create;modify
+           chk    node;id;status;svcId;svcName;typ;sessName;output;create;modify
+           sess   id;node;name;r|d;lockDelay;create;modify;check+check+…
+           kv     key;valtoken;flags;session;lockIdx;create;modify      tomb  key;idx
+           pq     id;session;create;modify            index  key;value
+   out:  ok last=… nodes=… svcs=… chks=… sess=… sc=… kvs=… tombs=… pqs=… idx=…   of restoreS (snapshotS s),
+         or err:<name> when a restorer refuses a record. -/
+section StoreTie
+open CV.Store
+
+def pNode (tok : String) : Option Node :=
+  match tok.splitOn ";" with
+  | [n, i, a, c, m] => do pure ⟨← decS n, ← decS i, ← decS a, ← c.toNat?, ← m.toNat?⟩
+  | _ => none
+def pSvc (tok : String) : Option Svc :=
+  match tok.splitOn ";" with
+  | [n, i, nm, p, c, m] => do pure ⟨← decS n, ← decS i, ← decS nm, ← p.toNat?, ← c.toNat?, ← m.toNat?⟩
+  | _ => none
+def pChk (tok : String) : Option Chk :=
+  match tok.splitOn ";" with
+  | [n, i, st, si, sn, ty, se, o, c, m] => do
+      pure ⟨← decS n, ← decS i, ← decS st, ← decS si, ← decS sn, ← decS ty, ← decS se, ← decS o, ← c.toNat?, ← m.toNat?⟩
+  | _ => none
+def pSess (tok : String) : Option Store.Sess :=
+  match tok.splitOn ";" with
+  | [i, n, nm, b, ld, c, m, cs] => do
+      let beh ← if b == "r" then some Behavior.release else if b == "d" then some Behavior.delete else none
+      let checks ← if cs.isEmpty then some [] else (cs.splitOn "+").mapM decS
+      pure ⟨← decS i, ← decS n, ← decS nm, beh, checks, ← ld.toNat?, ← c.toNat?, ← m.toNat?⟩
+  | _ => none
+def pKV (tok : String) : Option Store.KV :=
+  match tok.splitOn ";" with
+  | [k, v, f, se, li, c, m] => do pure ⟨← decB k, v, ← f.toNat?, ← decS se, ← li.toNat?, ← c.toNat?, ← m.toNat?⟩
+  | _ => none
+def pTomb (tok : String) : Option Store.Tomb :=
+  match tok.splitOn ";" with
+  | [k, i] => do pure ⟨← decB k, ← i.toNat?⟩
+  | _ => none
+def pPQ (tok : String) : Option PQ :=
+  match tok.splitOn ";" with
+  | [i, se, c, m] => do pure ⟨← decS i, ← decS se, ← c.toNat?, ← m.toNat?⟩
+  | _ => none
+def pIdx (tok : String) : Option (String × Nat) :=
+  match tok.splitOn ";" with
+  | [k, v] => do pure (← decS k, ← v.toNat?)
+  | _ => none
+
+def sj (l : List String) : String := ";".intercalate l
+def eNodes (l : List Node) : String := encList (l.map fun n => sj [encS n.name, encS n.id, encS n.addr, toString n.create, toString n.modify])
+def eSvcs (l : List Svc) : String :=
+  encList (l.map fun v => sj [encS v.node, encS v.id, encS v.name, toString v.port, toString v.create, toString v.modify])
+def eChks (l : List Chk) : String :=
+  encList (l.map fun c => sj [encS c.node, encS c.id, encS c.status, encS c.svcId, encS c.svcName, encS c.typ, encS c.sessName,
+    encS c.output, toString c.create, toString c.modify])
+def eSess (l : List Store.Sess) : String :=
+  encList (l.map fun x => sj [encS x.id, encS x.node, encS x.name, (match x.behavior with | .release => "r" | .delete => "d"),
+    toString x.lockDelay, toString x.create, toString x.modify, "+".intercalate (x.checks.map encS)])
+def eSC (l : List SessCheck) : String := encList (l.map fun m => sj [encS m.node, encS m.check, encS m.session])
+def eKVs (l : List Store.KV) : String :=
+  encList (l.map fun e => sj [encB e.key, e.val, toString e.flags, encS e.session, toString e.lockIdx, toString e.create, toString e.modify])
+def eTombs (l : List Store.Tomb) : String := encList (l.map fun t => sj [encB t.key, toString t.idx])
+def ePQs (l : List PQ) : String := encList (l.map fun q => sj [encS q.id, encS q.session, toString q.create, toString q.modify])
+def eIdx (l : List (String × Nat)) : String := encList (l.map fun r => sj [encS r.1, toString r.2])
+
+def stepStore (n v c x k t q i : String) : String :=
+  match (decList n).mapM pNode, (decList v).mapM pSvc, (decList c).mapM pChk, (decList x).mapM pSess,
+        (decList k).mapM pKV, (decList t).mapM pTomb, (decList q).mapM pPQ, (decList i).mapM pIdx with
+  | some nodes, some svcs, some chks, some sess, some kvs, some tombs, some pqs, some idx =>
+    -- session_checks of the original is not sent (derived table, rebuilt by Restore.Session)
+    let st : Store.State := { kvs := kvs, tombs := tombs, sessions := sess, sessChecks := [], nodes := nodes, svcs := svcs,
+                              chks := chks, queries := pqs, index := idx }
+    let sn := snapshotS st
+    match restoreS sn with
+    | .error e => "err:" ++ e.name
+    | .ok r =>
+      s!"ok last={sn.last} nodes={eNodes r.nodes} svcs={eSvcs r.svcs} chks={eChks r.chks} sess={eSess r.sessions} sc={eSC r.sessChecks} kvs={eKVs r.kvs} tombs={eTombs r.tombs} pqs={ePQs r.queries} idx={eIdx r.index}"
+  | _, _, _, _, _, _, _, _ => "bad-op"
+
+end StoreTie
+
 def step (_ : Unit) (toks : List String) : Unit × String :=
   match toks with
   | ["rt", i, k, t, s, p, b] =>
@@ -66,6 +150,7 @@ def step (_ : Unit) (toks : List String) : Unit × String :=
         | none => "-"
       ((), s!"last={sn.last} idx={encIdx r.index} kvs={encKVs r.kvs} tombs={encTombs r.tombs} sess={encSess r.sessions} sc={encSC r.sessionChecks} peer={encLate r.peerings} tb={encLate r.bundles} stream={encRuns (kindRuns sn.recs)} usage={usage}")
     | _, _, _, _, _, _ => ((), "bad-op")
+  | ["rts", n, v, c, x, k, t, q, i] => ((), stepStore n v c x k t q i)
   | _ => ((), "bad-op")
 
 def engine : Engine := { State := Unit, init := (), step := step }
